@@ -274,108 +274,3 @@ Proof.
   - unfold vfacts. cbn [wf vsig enc_form sig_of is_basic single_ok]. rewrite B, C. repeat split.
   - cbn [dep_clean sig_clean]. eapply okw_ext; [intros st Hs; exact (named_as_map _ st SStr SVariant Hs)|]. now apply mapx_ok.
 Qed.
-
-Lemma inner_struct_2 a s : inner_is_struct (SStruct [a; s]) = is_struct_sig s.
-Proof. destruct s; reflexivity. Qed.
-
-Lemma variant_sig_cases (v : variant) :
-  (exists n t, v = (KUnnamed, [(n, t)]) /\ variant_sig v = SStruct [SU32; sig_of t]) \/
-  ((forall n t, v <> (KUnnamed, [(n, t)])) /\ variant_sig v = SStruct [SU32; SStruct (fsigs (snd v))]).
-Proof.
-  destruct v as [k fs]. destruct k.
-  - destruct fs as [|[n t] [|f2 fr]].
-    + right. split; [intros n t; discriminate|reflexivity].
-    + left. exists n, t. split; reflexivity.
-    + right. split; [intros n' t'; discriminate|reflexivity].
-  - right. split; [intros n t; discriminate|reflexivity].
-Qed.
-
-Lemma Q_enum vs : Forall (fun v : variant => Forall (fun f => Q (snd f)) (snd v)) vs -> Q (TEnum vs).
-Proof.
-  intros HF Hok. rewrite ok_enum in Hok. apply andb_true_iff in Hok as [Hok Hall]. apply andb_true_iff in Hok as [Hne Hlen].
-  apply N.ltb_lt in Hlen. set (g := sig_of (TEnum vs)) in *.
-  set (o := has_option (TEnum vs)).
-  assert (Ho : forall v : variant, In v vs -> forall f, In f (snd v) -> has_option (snd f) = true -> o = true).
-  { intros v Hin f Hf Hopt. subst o. rewrite opt_enum. apply existsb_exists. exists v. split; [exact Hin|].
-    unfold opt_fields. apply existsb_exists. now exists f. }
-  clearbody o.
-  (* what every variant gives *)
-  assert (Hv : forall v : variant, In v vs ->
-             variant_sig v = g /\ nonempty (snd v) = true /\
-             (forall n t, v = (KUnnamed, [(n, t)]) -> is_struct_sig (sig_of t) = false) /\
-             (forallb single_ok (fsigs (snd v)) = true /\ fsigs (snd v) = fdsigs (snd v)) /\
-             forall l, ty_nam (snd v) l = true ->
-               Forall2 (fun x d => okw o x d false false) (map snd (sv_nam (snd v) l)) (dv_nam (snd v) l) /\
-               forallb wf (dv_nam (snd v) l) = true /\ map vsig (dv_nam (snd v) l) = fsigs (snd v) /\
-               forallb enc_form (dv_nam (snd v) l) = true).
-  { intros v Hin. rewrite forallb_forall in Hall. specialize (Hall v Hin). unfold ok_variant in Hall.
-    apply andb_true_iff in Hall as [Hall Hsig]. apply andb_true_iff in Hall as [Hall Hnt]. apply andb_true_iff in Hall as [Hnev Hokf].
-    rewrite Forall_forall in HF. specialize (HF v Hin).
-    destruct (nam_facts o (snd v) HF Hokf (Ho v Hin)) as [Hs Hl].
-    split; [now apply sig_eqb_eq|]. split; [exact Hnev|]. split; [|split; assumption].
-    intros n t ->. cbn [fst snd] in Hnt. now apply negb_true_iff in Hnt. }
-  destruct vs as [|v0 vr]; [discriminate|].
-  split.
-  { destruct (Hv v0 (or_introl eq_refl)) as (Hg & Hnev & Hnt & (Hs1 & Hs2) & _). rewrite <- Hg.
-    destruct (variant_sig_cases v0) as [(n & t & -> & E)|[Hno E]]; rewrite E.
-    - cbn [fsigs map snd forallb] in Hs1, Hs2. apply andb_true_iff in Hs1 as [Hs1 _]. injection Hs2 as Hs2.
-      split; [cbn [single_ok forallb]; now rewrite Hs1|]. fold g. rewrite dsig_enum. cbn [first_variant_dsig]. now rewrite Hs2.
-    - split; [cbn [single_ok forallb]; rewrite Hs1; destruct (snd v0); [discriminate|reflexivity]|].
-      fold g. rewrite dsig_enum. destruct v0 as [k fs]. cbn [snd] in *. unfold first_variant_dsig.
-      destruct k; [destruct fs as [|[n t] [|f2 fr]]|]; try (now rewrite Hs2). exfalso. exact (Hno n t eq_refl). }
-  intros [| | | | | | | | |i l] Ht; try discriminate Ht. rewrite typed_enum in Ht. rewrite sval_enum, dval_enum.
-  destruct (nth_error (v0 :: vr) i) as [v|] eqn:En; [|discriminate].
-  assert (Hin : In v (v0 :: vr)) by (eapply nth_error_In; exact En).
-  assert (Hi : N.of_nat i < 4294967296).
-  { assert (i < length (v0 :: vr))%nat by (apply nth_error_Some; congruence). lia. }
-  apply N.ltb_lt in Hi.
-  destruct (Hv v Hin) as (Hg & Hnev & Hnt & (Hs1 & Hs2) & Hl). destruct (Hl l Ht) as (G1 & G2 & G3 & G4).
-  assert (Edc : dep_clean (TEnum (v0 :: vr)) = inner_is_struct g) by reflexivity.
-  assert (Esc : sig_clean (TEnum (v0 :: vr)) = negb (inner_is_struct g)) by reflexivity.
-  rewrite Edc, Esc. clear Edc Esc.
-  destruct (variant_sig_cases v) as [(n & t & -> & E)|[Hno E]].
-  - (* newtype variant *)
-    cbn [snd] in *. destruct l as [|y [|y2 l2]]; try discriminate Ht.
-    unfold variant_sval, variant_dval. cbn [fst snd sv_nam dv_nam map] in *.
-    inversion G1 as [|? ? ? ? Hk _]; subst. apply andb_true_iff in G2 as [G2 _]. injection G3 as G3. apply andb_true_iff in G4 as [G4 _].
-    rewrite <- Hg, E, inner_struct_2, (Hnt n t eq_refl). cbn [negb]. split.
-    + unfold vfacts. cbn [wf vsig enc_form forallb map]. rewrite Hi, G2, G3, G4. repeat split.
-    + apply newtype_variantx_ok; [rewrite G3; exact (Hnt n t eq_refl)|exact Hk].
-  - (* tuple / struct variant *)
-    rewrite <- Hg, E, inner_struct_2. cbn [is_struct_sig negb].
-    assert (Hd : variant_dval i v l = VStruct [VU32 (N.of_nat i); VStruct (dv_nam (snd v) l)]).
-    { destruct v as [k fs]. unfold variant_dval. cbn [fst snd]. destruct k; [|reflexivity].
-      destruct fs as [|[n t] [|f2 fr]]; try reflexivity. exfalso. exact (Hno n t eq_refl). }
-    rewrite Hd. split.
-    + unfold vfacts. cbn [wf vsig enc_form forallb map]. rewrite Hi, G2, G3, G4.
-      assert (Hnd : match dv_nam (snd v) l with [] => false | _ => true end = true).
-      { destruct (snd v) as [|[n t] r]; [discriminate|]. destruct l; [discriminate|]. reflexivity. }
-      rewrite Hnd. repeat split.
-    + destruct v as [k fs]. unfold variant_sval. cbn [fst snd] in *. destruct k.
-      * assert (Hs : match fs with
-                     | [(_, t)] => match l with y :: _ => XNewtypeVariant (N.of_nat i) (sval_of_shape t y) | [] => XUnit end
-                     | _ => XTupleVariant (N.of_nat i) (map snd (sv_nam fs l))
-                     end = XTupleVariant (N.of_nat i) (map snd (sv_nam fs l))).
-        { destruct fs as [|[n t] [|f2 fr]]; try reflexivity. exfalso. exact (Hno n t eq_refl). }
-        rewrite Hs. now apply tuple_variantx_ok.
-      * now apply struct_variantx_ok.
-Qed.
-
-Lemma Q_all : forall t, Q t.
-Proof.
-  induction t using tshape_ind'.
-  - apply Q_prim.
-  - intros H; discriminate H.
-  - intros H'; discriminate H'.
-  - now apply Q_seq.
-  - now apply Q_map.
-  - now apply Q_option.
-  - now apply Q_tuple.
-  - now apply Q_newtype.
-  - now apply Q_struct.
-  - apply Q_uenum.
-  - apply Q_senum.
-  - now apply Q_enum.
-  - now apply Q_dict.
-  - apply Q_ip.
-Qed.
